@@ -80,6 +80,7 @@ InstM == <<At(100, 32400), At(100, 61200), At(101, 32400), At(102, Noon)>>   \* 
 SymY  == {Sy("in", ty, 2, 0, p, 11, 0) : ty \in {"buy", "interest"}, p \in 1..2}
          \cup {Sy("out", ty, a, 0, 3, 11, 0) : ty \in {"sell", "gift"}, a \in {1, 3}}
          \cup {Sy("out", "sell", All, 0, 3, 11, 0), Sy("intra", "move", 2, 1, 3, 11, 21)}
+         \cup {Sy("out", "sell", 1, 0, 2, 11, 0)}                  \* sold at the purchase price of a lot: a fraction, and possibly a yearly line, with zero gain
 InstY == <<At(59, Noon), At(243, Noon), At(426, Noon), At(640, Noon), At(794, Noon), At(1110, Noon)>>
 
 (* V: exchange-supplied fiat values next to computed ones                  *)
@@ -92,6 +93,8 @@ SymV  == {Sy("in", "buy", 2, 0, 2, 11, 0),
           [Sy("out", "sell", 3, 0, 3, 11, 0) EXCEPT !.vout = 10],
           [Sy("out", "sell", 1, 1, 3, 11, 0) EXCEPT !.vout = 4, !.vfee = 2],
           [Sy("out", "fee", 0, 2, 3, 11, 0) EXCEPT !.vfee = 5],
+          [Sy("out", "sell", 1, 1, 3, 11, 0) EXCEPT !.vfee = 2],          \* fee value supplied, sale value computed
+          [Sy("in", "buy", 2, 0, 2, 11, 0) EXCEPT !.vwf = 7],              \* value with fee supplied, value without fee computed
           Sy("out", "donate", All, 0, 3, 11, 0)}
 InstV == <<At(100, Noon), At(101, Noon), At(600, Noon)>>
 
